@@ -88,7 +88,7 @@ func c01Bolt(run *Run, cd *codecDef, v2engine bool) {
 	sh := run.NewShard(boltShardHeader, "enc_case", "enc_mismatches")
 	shBytes := 0
 	add := func(in []byte, ops []opRec, out []byte, encErr bool, rep interface{}) {
-		if len(in)+len(out) > 30000 && r.Pct(run.N(70, 50)) {
+		if (len(in)+len(out) > 30000 && r.Pct(run.N(85, 50))) || (!run.Thorough() && len(in)+len(out) > 3000 && r.Pct(50)) {
 			return
 		}
 		var it []string
@@ -116,7 +116,7 @@ func c01Bolt(run *Run, cd *codecDef, v2engine bool) {
 			shBytes = 0
 		}
 	}
-	nframes := run.N(40, 250)
+	nframes := run.N(16, 250)
 	for i := 0; i < nframes; i++ {
 		vf := cd.Gen(r, i%8 == 7)
 		in := vf.Bytes
@@ -344,7 +344,7 @@ func c01X(run *Run, cd *codecDef) {
 	r := run.R
 	sh := run.NewShard(xShardHeader, "xenc_case", "xenc_mismatches")
 	shBytes := 0
-	nframes := run.N(30, 200)
+	nframes := run.N(12, 200)
 	for i := 0; i < nframes; i++ {
 		vf := cd.Gen(r, i%8 == 7)
 		in := vf.Bytes
@@ -439,7 +439,7 @@ func c01X(run *Run, cd *codecDef) {
 			if cd.Name == "tars" || variant == 1 || (cd.Name == "dubbo-thrift" && variant == 3) {
 				continue
 			}
-			if len(in) > 20000 && r.Pct(run.N(70, 50)) {
+			if (len(in) > 20000 && r.Pct(run.N(85, 50))) || (!run.Thorough() && len(in) > 3000 && r.Pct(50)) {
 				continue
 			}
 			sd := "None"
